@@ -63,7 +63,7 @@ def work_texts(item):
 
 
 # ---------------------------------------------------------------- built-ins
-VALS = ["0", "1", "-1", "2", "255", "256", "4611686018427387904", "9223372036854775807", "-9223372036854775808", "(expt 2 64)",
+VALS = ["0", "1", "-1", "2", "255", "256", "55296", "1114112", "4611686018427387904", "9223372036854775807", "-9223372036854775808", "(expt 2 64)",
         "1/2", "0.5", "-0.0", "1e308", "+inf.0", "+nan.0", "\"\"", "\"a\"", "\"λ\"", "#\\a", "'()", "'(1)", "(cons 1 2)",
         "(vector-immutable)", "(vector-immutable 1)", "(vector 1)", "(hash)", "(hash 'a 1)", "(hashset)", "(bytes 1)", "'sym", "void",
         "(lambda () 1)", "(lambda (x) x)", "(box 1)", "(vf-P 1)", "(open-input-string \"x\")", "(eof-object)", "#t",
@@ -159,7 +159,19 @@ EVENTS = [
     ("arity-err", "((lambda (a b) a) 1)", "err"),
     ("raise", "(error \"boom\" {k})", "err"),
     ("dynwind-err", "(dynamic-wind (lambda () 1) (lambda () (car 0)) (lambda () 2))", "err"),
+    # first require of a file module inside a unit that then fails to compile (macro use matching no rule) / that succeeds
+    ("req-bad", "(require \"{MOD}\") (vfm-mac 1 2 3)", "err"),
+    ("req-good", "(require \"{MOD}\") (vfm-val)", "ok"),
 ]
+MODDIR = __import__("os").path.join(common.VERIF, ".work", "c07mod")
+MODFILE = __import__("os").path.join(MODDIR, "m.scm")
+
+
+def ensure_module():
+    import os
+    os.makedirs(MODDIR, exist_ok=True)
+    with open(MODFILE, "w") as fh:
+        fh.write("(provide vfm-val vfm-mac)\n(define (vfm-val) 41)\n(define-syntax vfm-mac (syntax-rules () [(_ a) a]))\n")
 
 
 def work_hist(lst):
@@ -171,7 +183,7 @@ def work_hist(lst):
         defs = []
         for k, ei in enumerate(seq):
             name, tmpl, want = EVENTS[ei]
-            steps.append(tmpl.replace("{k}", str(k)))
+            steps.append(tmpl.replace("{k}", str(k)).replace("{MOD}", MODFILE))
             plan.append(("ev", want, name))
             steps.append("(vf-probe)")
             plan.append(("probe", None, name))
@@ -188,7 +200,7 @@ def work_hist(lst):
                 plan.append(("defs", "(lst %s)" % " ".join(w for d, w in defs), name))
         cases.append({"id": hid, "steps": steps})
         plans[hid] = plan
-    res = common.run_cases(cases, env=None, batch=10, timeout_ms=30000)
+    res = common.run_cases(cases, env=None, batch=1, timeout_ms=30000)
     fails = []
     for hid, seq in lst:
         r = res[hid]
@@ -272,6 +284,7 @@ def main(argv=None):
                       {"case": {"steps": [BUILTIN_PRELUDE, call, "(+ 1 2)"]}, "env": ENV})
     # (c) histories
     depth = 4 if thorough else 3
+    ensure_module()
     hists = []
     for n in range(1, depth + 1):
         hists += list(itertools.product(range(len(EVENTS)), repeat=n))
@@ -284,7 +297,7 @@ def main(argv=None):
             continue  # a shorter failing history is contained in this one
         hkept.append(names)
         rep.violation("history %s => %s" % (" ; ".join(names), why), {"history": names, "why": why, "detail": detail},
-                      {"case": {"steps": [PROBE_DEF] + [EVENTS[[e[0] for e in EVENTS].index(nm)][1].replace("{k}", str(k)) for k, nm in enumerate(names)] + ["(vf-probe)", {"op": "depths"}]}, "env": None})
+                      {"case": {"steps": [PROBE_DEF] + [EVENTS[[e[0] for e in EVENTS].index(nm)][1].replace("{k}", str(k)).replace("{MOD}", MODFILE) for k, nm in enumerate(names)] + ["(vf-probe)", {"op": "depths"}]}, "env": None})
     cov = {"evaluations": n_text + n_calls + n_hist,
            "distinct_nontrivial": tcounts.get("ok", 0) + n_oks + n_hist,
            "rule": "(a) every sequence of <= %d tokens from a %d-token menu (space-joined, and unspaced up to 2) and every string of <= %d "
